@@ -43,14 +43,19 @@ FLAT_KINDS = {
 }
 
 
+NEEDS_FRONTENDS = True
 EMBED = [("", ""), ('<if test="1">', "</if>"), ("<g>", "</g>"), ("<defs>", "</defs>"), ("<svg>", "</svg>"), ('<a href="x">', "</a>"), ('<g m="1" class="c">', "</g>"),
          ('<loop count="1">', "</loop>"), ('<g><if test="1">', "</if></g>"), ('<if test="1"><defs>', "</defs></if>")]
 
 
 def limit_cfg(rng, key, L):
     """returns (cfg, prefix): the limit is given either by configuration or by a <config> element"""
-    if rng.random() < 0.5:
+    k = rng.random()
+    if k < 0.42:
         return {key: L}, "", "config"
+    if k < 0.55:
+        # the same limit given as an option of the svgdx command (document on stdin)
+        return {key: L}, "", "cli-option"
     name = {"loop": "loop-limit", "var": "var-limit", "depth": "depth-limit"}[key]
     return None, '<config %s="%d"/>' % (name, L), "config-element"
 
@@ -220,7 +225,20 @@ def cases(ctx):
 def check_case(ctx, case):
     acc = ctx.acc
     acc.cases += 1
-    r = ctx.run(case["input"], case.get("cfg"))
+    if case.get("how") == "cli-option":
+        from . import frontends
+        args = []
+        for k_, v_ in (case.get("cfg") or {}).items():
+            args += ["--%s-limit" % k_, str(v_)]
+        res = frontends.run_cli(args, stdin=case["input"], timeout=300)
+        acc.evaluations += 1
+        acc.count("cli.limit-option")
+        if res.timed_out:
+            acc.inconc("cli-timeout")
+            return
+        r = core.Result(status="ok" if res.rc == 0 else "died" if res.rc < 0 or res.rc > 100 else "err", out=res.out, err=res.err.decode("utf-8", "replace"), kind="cli")
+    else:
+        r = ctx.run(case["input"], case.get("cfg"))
     if r.crashed:
         acc.count("crashed(C01's business)")
         return
